@@ -274,6 +274,18 @@ def run(ctx, out):
             out.violation('C16:derived-non-init-field', f'copy, deepcopy, replace(), replace(w=5) of {d!r}, whose hook sets a = 2 * w, gave (w, a) = {got}', {'case': 'derived'})
     except Exception as e:
         out.violation(f'C16:derived-non-init-field:{type(e).__name__}', f'copying / replacing {d!r} raised {type(e).__name__}: {str(e)[:160]}', {'case': 'derived'})
+    # a default-factory product mutated in place while its field is not in the set-field record
+    class PF(pane.PaneBase, frozen=False):
+        items: t.List[int] = pane.field(default_factory=list)
+        k: int = 0
+    n += 1
+    p = PF(k=1)
+    p.items.append(1)
+    for how, mk in (('copy', lambda: copy.copy(p)), ('deepcopy', lambda: copy.deepcopy(p)), ('replace()', lambda: p.__replace__())):
+        r = mk()
+        if not (r == p) or set(r.__pane_set__) != set(p.__pane_set__):
+            sig = 'C16:replace-after-in-place-mutation-of-unset-factory-field' if how == 'replace()' else f'C16:{how}-after-in-place-mutation'
+            out.violation(sig, f'{how} of {p!r} (set-record {sorted(p.__pane_set__)}; items was appended to in place) gave {r!r} / {sorted(r.__pane_set__)}', {'how': how})
     out.evaluations += n
     out.sample({'case': items[7][1][:5], 'observed (==, <, <=, >, >=)': list(items[7][1][5])})
     instance_machine(ctx, out, rng)
